@@ -104,6 +104,11 @@ class Exec:
                 ev.append(["bump", s])
         for a in c.asdict:
             ev.append(["as_dict", a])
+        ev.append(["repr"])
+        if not self.gone:
+            # another Process object of the same process opens and leaves a block of its own (explicitly / through as_dict)
+            ev.append(["other", "block"])
+            ev.append(["other", "as_dict"])
         if not self.gone:
             ev.append(["vanish"])
             if not self.p.zombie:
@@ -188,6 +193,10 @@ class Exec:
             lab = self.do_call(ev[1], log0)
         elif k == "as_dict":
             lab = self.do_as_dict(ev[1], log0)
+        elif k == "repr":
+            lab = self.do_repr(log0)
+        elif k == "other":
+            lab = self.do_other(ev[1])
         self.label = lab
 
     def source_state(self, s):
@@ -271,6 +280,49 @@ class Exec:
                           "%s() reports %s version %r, expected %r (current %r, block cache %r)"
                           % (m, s, g, sorted(e), self.v[s], self.block))
         return "call:%s:ok" % m
+
+    def do_repr(self, log0):
+        """str()/repr() of the object (they open a block of their own to read name and status)"""
+        import re
+        out = outcome(repr, self.obj)
+        out2 = outcome(str, self.obj)
+        if out[0] != "ok" or out2[0] != "ok":
+            self.viol("repr-raised", "repr -> %r, str -> %r" % (out, out2))
+            return "repr:exc"
+        reads = self.count_reads(log0)
+        if self.block_reads is not None and not self.gone and not self.p.zombie:
+            self.block_reads["stat"] += reads["stat"]
+            if self.block_reads["stat"] > 1:
+                self.viol("source-read-twice:stat", "stat read %d times inside one block (repr/str of the object)" % self.block_reads["stat"])
+        if self.block is not None and reads["stat"] and "stat" not in self.block:
+            self.block["stat"] = self.v["stat"]       # (also when the record read is a zombie's: it is the block's first read)
+        if not self.gone and not self.p.zombie:
+            exp = self.expect_versions(("stat",))[0]
+            for txt in (out[1], out2[1]):
+                m = re.search(r"name='n(\d+)'", txt)
+                if m is None or int(m.group(1)) not in exp:
+                    self.viol("stale-or-fresh:repr:stat:%s" % ("in-block" if self.block is not None else "outside"),
+                              "%s, expected name version %r (current %r, block cache %r)" % (txt, sorted(exp), self.v["stat"], self.block))
+        return "repr:ok"
+
+    def do_other(self, how):
+        """a second object of the same process uses a block of its own: nothing of this object's block may change"""
+        o = outcome(self.ps.Process, self.cfg.pid)
+        if o[0] != "ok":
+            if not self.p.zombie:
+                self.viol("other-ctor", repr(o))
+            return "other:ctor-" + str(o[1])
+        other = o[1]
+        if how == "block":
+            def f():
+                with other.oneshot():
+                    return other.name(), other.uids()
+            out = outcome(f)
+        else:
+            out = outcome(other.as_dict, ["name", "uids"], "AD")
+        if out[0] != "ok" and not (self.p.zombie or "status" in self.p.denied):
+            self.viol("other-raised", repr(out))
+        return "other:%s:%s" % (how, out[0] if out[0] == "ok" else out[1])
 
     def do_as_dict(self, a, log0):
         attrs = ASDICT[a]
